@@ -8,3 +8,8 @@ open Martian.Props.C15
 #print axioms logger_identity
 #print axioms skip_logging_records_nothing
 #print axioms unskipped_is_recorded
+#print axioms logger_identity_with_errors
+#print axioms logger_error_records_nothing
+#print axioms skip_logging_records_nothing_with_errors
+#print axioms unskipped_without_error_is_recorded
+#print axioms logMsgT_ok
